@@ -142,15 +142,17 @@ def evaluate(cfg):
     ipts = np.array([[0, 1, -1], [2, 0, 1], [1, 1, 0], [0, 0, 0]])
     o.same("integer-dtype points == the same points as floats", evaluate_basis(g, ipts, **kw),
            evaluate_basis(g, ipts.astype(float), **kw), key="points-int-dtype")
-    for od in ((0, 2, 1), (1, 0, 0), (2, 2, 2)):
-        for nm, arr in (("int64", ipts), ("float32", pts.astype(np.float32)), ("int32", ipts.astype(np.int32))):
+    for nm, arr in (("int64", ipts), ("float32", pts.astype(np.float32)), ("int32", ipts.astype(np.int32))):
+        ev2 = BasisEvaluator(shells, arr.astype(float), 2)
+        for od in ((0, 2, 1), (1, 0, 0), (2, 2, 2)):
+            v2, m2 = ev2.deriv(od)
+            if T is not None:
+                v2, m2 = T @ v2, np.abs(T) @ m2
             a = evaluate_deriv_basis(g, arr, np.array(od), deriv_type="direct", **kw)
             b = evaluate_deriv_basis(g, arr, np.array(od), deriv_type="general", **kw)
-            c = evaluate_deriv_basis(g, arr.astype(float), np.array(od), deriv_type="general", **kw)
-            o.call(3)
-            sc = np.abs(c) + 1e-3 * float(np.max(np.abs(c))) + 1e-300
-            o.cmp("direct == general for %s points, order %s" % (nm, od), a, b, 1e-10, sc, key="points-dtype-direct")
-            o.cmp("%s points == the same points as float64, order %s" % (nm, od), b, c, 1e-10, sc, key="points-dtype-general")
+            o.call(2)
+            o.cmp("direct back-end with %s points, order %s" % (nm, od), a, v2, TOL, m2, key="points-dtype-direct")
+            o.cmp("general back-end with %s points, order %s" % (nm, od), b, v2, TOL, m2, key="points-dtype-general")
     o.same("orders given as a non-contiguous / int32 array",
            evaluate_deriv_basis(g, pts, np.array([[1, 9], [0, 9], [2, 9]])[:, 0], **kw),
            evaluate_deriv_basis(g, pts, np.array([1, 0, 2]), **kw), key="orders-representation")
